@@ -2,6 +2,7 @@
    src/parser/inlines.rs, tied to the compiled parser by tools/checks/inlines_tie.py). *)
 From Coq Require Import List NArith ZArith Bool Strings.String.
 From V Require Import Base.Bytes Base.Res Model.Ast Model.Inlines Proofs.InlinesProofs.
+From V Require Model.Scan Model.Strings Proofs.RefDefTitle.
 From V Require Gen.Nodes.
 Import ListNotations.
 
@@ -113,11 +114,20 @@ Proof. exact backtick_memo_unscanned. Qed.
 Print Assumptions backtick_memo_unscanned_same.
 
 (* ---- reference definitions (parse_reference_inline of parser/mod.rs, modelled for the tie's reference map) ----
-   the model reproduces a defect of the implementation: when the title stands on the next line and is followed by
-   other text, the line is given back to the paragraph but the definition keeps the title
-   (content: [a]: /u NEWLINE "t" junk NEWLINE  ->  rest = "t" junk, entry a -> (/u, t)). *)
-Theorem refdef_title_kept_witness :
+   INL-2 (repaired by `title.clear()`): when the title stands on the next line and is followed by other text, the line
+   is given back to the paragraph and the definition has no title.
+   For EVERY content: a stored non-empty title is clean_title of a link_title match at p of length tl that ends
+   inside the consumed bytes (p + tl <= n), so no byte of a stored title is ever given back to the paragraph. *)
+Theorem refdef_title_inside_consumed : forall fold inp n lab url ct,
+  parse_reference_inline fold inp = Ok (Some (n, Some (lab, (url, ct)))) -> ct <> [] ->
+  exists p tl, Scan.scan_link_title (skipn p inp) = Some tl
+               /\ Strings.clean_title (firstn tl (skipn p inp)) = Ok ct /\ p + tl <= n.
+Proof. exact RefDefTitle.I.title_inside_consumed. Qed.
+Print Assumptions refdef_title_inside_consumed.
+
+(* the former witness of the defect (content: [a]: /u NEWLINE "t" junk NEWLINE): rest = "t" junk, entry a -> (/u, no title) *)
+Theorem refdef_title_dropped_witness :
   refdefs (map to_lower_ascii) refdef_witness
-  = Ok ([x22; x74; x22; x20; x6a; x75; x6e; x6b; x0a], [([x61], ([x2f; x75], [x74]))]).
-Proof. exact refdef_title_kept_lemma. Qed.
-Print Assumptions refdef_title_kept_witness.
+  = Ok ([x22; x74; x22; x20; x6a; x75; x6e; x6b; x0a], [([x61], ([x2f; x75], []))]).
+Proof. exact refdef_title_dropped_lemma. Qed.
+Print Assumptions refdef_title_dropped_witness.
